@@ -40,7 +40,7 @@ type c15Client struct {
 }
 
 type c15Event struct {
-	K       string   `json:"k"` // m message, a puback, t resend tick, off / on, sub / unsub / disc, pub (client PUBLISH burst)
+	K       string   `json:"k"`              // m message, a puback, t resend tick, off / on, sub / unsub / disc, pub (client PUBLISH burst)
 	Subs    []c15Sub `json:"subs,omitempty"` // sub
 	Fs      []string `json:"fs,omitempty"`   // unsub
 	Pubs    []c15Pub `json:"pubs,omitempty"` // pub: PUBLISH packets processed back-to-back before the queue is written out
@@ -51,8 +51,8 @@ type c15Event struct {
 	B64     bool     `json:"b64,omitempty"`
 	B64OK   bool     `json:"b64ok,omitempty"` // oracle (encoding/base64): the payload decodes
 	Dec     string   `json:"dec,omitempty"`   // oracle: the decoded payload
-	Bad     string   `json:"bad,omitempty"`  // "", method, json, b64 (HTTP only)
-	Full    []string `json:"full,omitempty"` // clients whose writeCh is full at this instant (QoS0 messages only)
+	Bad     string   `json:"bad,omitempty"`   // "", method, json, b64 (HTTP only)
+	Full    []string `json:"full,omitempty"`  // clients whose writeCh is full at this instant (QoS0 messages only)
 	C       string   `json:"c,omitempty"`
 	ID      int      `json:"id,omitempty"`
 	N       int      `json:"n,omitempty"` // mn: the QoS0 message is sent N times (queues drained after each send)
@@ -73,7 +73,7 @@ type c15Input struct {
 
 type c15Step struct {
 	Status int                 `json:"st"`
-	Out    map[string][]string `json:"out,omitempty"` // client -> "id:qos:payload" of PUBLISH packets queued
+	Out    map[string][]string `json:"out,omitempty"`  // client -> "id:qos:payload" of PUBLISH packets queued
 	Acks   []int               `json:"acks,omitempty"` // pub: packet ids of the PUBACKs as encoded when the queue is written out
 	Cnt    map[string]int      `json:"cnt,omitempty"`  // mn: client -> number of PUBLISH packets queued over the N sends (out = first and last)
 	Pipe   []c15wPipe          `json:"pipe,omitempty"` // pub: calls seen by the Publish pipeline
